@@ -274,6 +274,14 @@ typename std::enable_if<S != 'c', bool>::type runPurity(const Req& r, Resp& R) {
     if (op == "self_compose" && a.size() == (size_t)Rep) { Operand<G, S> x(a.data()); x.mut() = x.get() * x.get(); pushM(out, x.get().coeffs()); return true; }
     if (op == "self_compose2" && a.size() == (size_t)Rep) { Operand<G, S> x(a.data()); x.mut() = x.get().compose(x.get()); pushM(out, x.get().coeffs()); return true; }
     if (op == "self_timeseq" && a.size() == (size_t)Rep) { Operand<G, S> x(a.data()); x.mut() *= x.get(); pushM(out, x.get().coeffs()); return true; }
+    // the same storage seen through a SECOND object (a view of the operand's coefficients): an alias check that
+    // compares object addresses does not see it
+    if (op == "self_timeseq_cv" && a.size() == (size_t)Rep) { Operand<G, S> x(a.data()); Eigen::Map<const G> v(x.raw()); x.mut() *= v; pushM(out, x.get().coeffs()); return true; }
+    if (op == "self_timeseq_vx" && a.size() == (size_t)Rep) { Operand<G, S> x(a.data()); Eigen::Map<G> w(const_cast<typename G::Scalar*>(x.raw())); w *= x.get(); pushM(out, x.get().coeffs()); return true; }
+    if (op == "self_compose_cv" && a.size() == (size_t)Rep) { Operand<G, S> x(a.data()); Eigen::Map<const G> v(x.raw()); x.mut() = v.compose(v); pushM(out, x.get().coeffs()); return true; }
+    if (op == "self_compose_vx" && a.size() == (size_t)Rep) { Operand<G, S> x(a.data()); Eigen::Map<G> w(const_cast<typename G::Scalar*>(x.raw())); w = x.get() * x.get(); pushM(out, x.get().coeffs()); return true; }
+    if (op == "self_inverse_cv" && a.size() == (size_t)Rep) { Operand<G, S> x(a.data()); Eigen::Map<const G> v(x.raw()); x.mut() = v.inverse(); pushM(out, x.get().coeffs()); return true; }
+    if (op == "self_rplus_cv" && a.size() == (size_t)(Rep + DoF)) { Operand<G, S> x(a.data()); TOperand<T, 'o'> t(a.data() + Rep); Eigen::Map<const G> v(x.raw()); x.mut() = v + t.get(); pushM(out, x.get().coeffs()); return true; }
     if (op == "self_inverse" && a.size() == (size_t)Rep) { Operand<G, S> x(a.data()); x.mut() = x.get().inverse(); pushM(out, x.get().coeffs()); return true; }
     if (op == "self_between" && a.size() == (size_t)(2 * Rep)) { Operand<G, S> x(a.data()); Operand<G, 'o'> y(a.data() + Rep); x.mut() = x.get().between(y.get()); pushM(out, x.get().coeffs()); return true; }
     if (op == "self_rplus" && a.size() == (size_t)(Rep + DoF)) { Operand<G, S> x(a.data()); TOperand<T, 'o'> t(a.data() + Rep); x.mut() = x.get() + t.get(); pushM(out, x.get().coeffs()); return true; }
